@@ -59,6 +59,10 @@ def run(F, R):
     # S6: the receive / transmit queues run in the negotiated modes (C08.H3)
     from .C08 import queue_modes_rule
     queue_modes_rule(F, R, M, 'S6', ['device::net'])
+    # S9: packets keep being received / transmit completions seen after the 16-bit ring indices wrap (65536 completions on one queue): wrap-safe
+    # counters and the folded completion test (C03.E5 / E9)
+    from .C03 import wrap_rule
+    wrap_rule(F, R, 'S9')
 
 
 def sizeofs(t):
